@@ -42,6 +42,6 @@ class SecureFlaskCookie(SimpleCodemod, SecureCookieMixin):
 
     def on_result_found(self, original_node, updated_node):
         new_args = self.replace_args(
-            original_node, self._choose_new_args(original_node)
+            updated_node, self._choose_new_args(original_node)
         )
         return self.update_arg_target(updated_node, new_args)
